@@ -42,6 +42,48 @@ def parse_utc(ts: str):
     return base
 
 
+def _kind(v):
+    if isinstance(v, bool) or (isinstance(v, int) and not isinstance(v, bool)):
+        return "int"      # 1 vs True: the runtime's own serialisation cannot tell them apart (don't-care)
+    if isinstance(v, float):
+        return "float"    # numpy float64 is a float
+    return type(v).__name__
+
+
+def same_content(a, b):
+    """Equal content including the type of scalars (2 -> 2.0 IS a change; 1 -> True is a don't-care)."""
+    from vlib import account
+
+    if isinstance(a, (list, tuple)) and isinstance(b, (list, tuple)):
+        return len(a) == len(b) and all(same_content(x, y) for x, y in zip(a, b))
+    if isinstance(a, dict) and isinstance(b, dict):
+        return set(a) == set(b) and all(same_content(a[k], b[k]) for k in a)
+    return _kind(a) == _kind(b) and account.close(a, b)
+
+
+def targeted_case(g, j):
+    """Patterns aimed at narrow SER corners: a key rewritten with an ==-equal value of another type; a defaulted
+    parameter whose context value is None; a list key rewritten element-wise equal."""
+    k = g.rng.choice(["factor", "addend", "a", "seen"])
+    v = g.rng.choice([1, 2, 3])
+    pat = j % 4
+    if pat == 0:
+        nodes = [{"processor": "VSrc", "parameters": {"value": float(v)}}, {"processor": "VValueProbe", "context_key": k},
+                 {"processor": "VAddDefault"}]
+        ctx = {k: v}
+    elif pat == 1:
+        nodes = [{"processor": "VCollSrc", "parameters": {"n": 2, "start": 1.0}},
+                 {"processor": "slice:VValueProbe:FloatDataCollection", "context_key": "seq"}, {"processor": "VCollSum"}]
+        ctx = {"seq": [1, 2]}
+    elif pat == 2:
+        nodes = [{"processor": "VSrc", "parameters": {"value": 1.5}}, {"processor": "VNullSink"}, {"processor": "VMulDefault"}]
+        ctx = {"tag": None}
+    else:
+        nodes = [{"processor": "VSrcDefault"}, {"processor": "VScaledProbe", "context_key": "p"}, {"processor": "VNullSink"}]
+        ctx = {"scale": None, "value": float(v)}
+    return {"nodes": nodes, "ctx": ctx, "data": "NoData"}
+
+
 def check_case(run, case, detail, tz, scratch, digests):
     from vlib import account, refmodel as rm, tracecheck as tc
     from vlib.diffrun import node_kind
@@ -90,7 +132,8 @@ def check_case(run, case, detail, tz, scratch, digests):
         before, after = rec["ctx_before"] or {}, rec["ctx_after"] or {}
         # ---- context delta
         appeared = sorted(k for k in after if k not in before)
-        changed = sorted(k for k in after if k in before and not account.close(after[k], before[k]))
+        changed = sorted(k for k in after if k in before and not same_content(after[k], before[k]))
+        disappeared = sorted(k for k in before if k not in after)
         cd = ser.get("context_delta", {})
         if sorted(cd.get("created_keys", [])) != appeared:
             viol(f"created_keys_wrong@{kind}", f"SER created_keys {cd.get('created_keys')} vs keys that appeared {appeared}", i, before=before, after=after)
@@ -166,6 +209,10 @@ def check_case(run, case, detail, tz, scratch, digests):
             if prev_post_ctx is not None and cpre != prev_post_ctx:
                 viol("digest_chain_broken_context", f"node {i} pre-context digest != node {i - 1} post-context digest", i)
             prev_post_ctx = cpost
+            if cpre is not None and cpost is not None:
+                delta = bool(cd.get("created_keys") or cd.get("updated_keys") or disappeared)
+                if cpre != cpost and not delta:
+                    viol("context_digest_changed_but_no_delta_reported", f"node {i}: pre/post context digests differ but the SER reports no created/updated key (and none disappeared)", i, before=before, after=after)
         # ---- durations and timestamps
         timing = ser.get("timing") or {}
         for f in ("wall_ms", "cpu_ms"):
@@ -202,7 +249,7 @@ def run(run):
     digests: dict = {}
     try:
         for i in range(N_CASES[run.tier]):
-            case = g.pipeline(max_len=7, fault_bias=0.25)
+            case = g.pipeline(max_len=7, fault_bias=0.25) if i % 5 else targeted_case(g, i // 5)
             details = [DETAILS[i % len(DETAILS)]] if run.tier == "quick" else DETAILS[:4]
             for detail in details:
                 for tz in TZS:
